@@ -17,7 +17,7 @@ package odt
 
 // ---- C15: everything written into a pipe table is a structural literal or escaped cell text ----
 // total number of columns a row occupies: every cell counts its span (at least 1), covered cells included
-//@ spec rec prefix func spanSum(cells []ParsedTableCell, n int) int = n <= 0 ? 0 : spanSum(cells, n - 1) + (cells[n-1].ColSpan < 1 ? 1 : cells[n-1].ColSpan)
+//@ spec rec prefix func odtSpanSum(cells []ParsedTableCell, n int) int = n <= 0 ? 0 : odtSpanSum(cells, n - 1) + (cells[n-1].ColSpan < 1 ? 1 : cells[n-1].ColSpan)
 
 // Row arity: `cells` counts the cell terminators written; every row - and the separator line after the first row -
 // gets exactly colCount of them, whatever spans and covered cells it contains.
@@ -27,14 +27,14 @@ package odt
 //@   count cells: WriteString(s) when s == " |" || s == " --- |"
 //@   callsite WriteString(s) requires cell_or_structure: s == "|" || s == " " || s == " |" || s == "\n" || s == " --- |" || (forall k int :: {s[k]} 0 <= k && k < len(s) ==> s[k] != 10 && (s[k] == '|' ==> k >= 1 && s[k-1] == 92))
 //@   loop 0:
-//@     invariant colCount >= 0 && forall r int :: {pt.Rows[r]} 0 <= r && r < $i ==> spanSum(pt.Rows[r].Cells, len(pt.Rows[r].Cells)) <= colCount
+//@     invariant colCount >= 0 && forall r int :: {pt.Rows[r]} 0 <= r && r < $i ==> odtSpanSum(pt.Rows[r].Cells, len(pt.Rows[r].Cells)) <= colCount
 //@   loop 1:
-//@     invariant count == spanSum(row.Cells, $i)
+//@     invariant count == odtSpanSum(row.Cells, $i)
 //@   loop 2:
-//@     invariant colCount >= 0 && forall r int :: {pt.Rows[r]} 0 <= r && r < len(pt.Rows) ==> spanSum(pt.Rows[r].Cells, len(pt.Rows[r].Cells)) <= colCount
+//@     invariant colCount >= 0 && forall r int :: {pt.Rows[r]} 0 <= r && r < len(pt.Rows) ==> odtSpanSum(pt.Rows[r].Cells, len(pt.Rows[r].Cells)) <= colCount
 //@     step every_row_has_colCount_cells: cells == prev(cells) + colCount + (rowIdx == 0 ? colCount : 0)
 //@   loop 3:
-//@     invariant colIdx == spanSum(row.Cells, $i) && cells == entry(cells) + colIdx
+//@     invariant colIdx == odtSpanSum(row.Cells, $i) && cells == entry(cells) + colIdx
 //@   loop 4:
 //@     invariant 0 <= k && k <= span && cells == entry(cells) + k
 //@     decreases span - k
